@@ -2,17 +2,17 @@
 # usage: tools/confirm_seed.sh <PID> <A|B> [check-ids...] — confirm a sub-agent's seeded change in its scratch worktree,
 # store it under /verif/seeded/<PID>-<X>/, then run the named checks (default: <PID>) against it in /repo.
 PID=$1; X=$2; shift 2; CHECKS=${@:-$PID}; WT=/tmp/wt_$PID; S=$WT/_seed/$X
-export CARGO_TARGET_DIR=/tmp/seedtarget CARGO_NET_OFFLINE=true
+export CARGO_TARGET_DIR=/tmp/seedtarget_$PID CARGO_NET_OFFLINE=true
 cd $WT || exit 9
 git checkout -q -- . ; rm -f tests/demo_seed.rs
 FEAT=""; grep -q 'feature = "serialize"' $S/demo.rs && FEAT="--features serialize"
 git apply $S/patch.diff || { echo "$PID-$X: patch does not apply"; exit 8; }
-cargo test --workspace --no-fail-fast --offline >/tmp/seed_suite.log 2>&1; SUITE=$?
-NT=$(grep -E "^test result" /tmp/seed_suite.log | awk '{s+=$4} END {print s}')
+cargo test --workspace --no-fail-fast --offline >/tmp/seed_suite_$PID.log 2>&1; SUITE=$?
+NT=$(grep -E "^test result" /tmp/seed_suite_$PID.log | awk '{s+=$4} END {print s}')
 cp $S/demo.rs tests/demo_seed.rs
-cargo test --offline $FEAT --test demo_seed >/tmp/seed_mut.log 2>&1; MUT=$?
+cargo test --offline $FEAT --test demo_seed >/tmp/seed_mut_$PID.log 2>&1; MUT=$?
 git checkout -q -- .
-cargo test --offline $FEAT --test demo_seed >/tmp/seed_clean.log 2>&1; CLEAN=$?
+cargo test --offline $FEAT --test demo_seed >/tmp/seed_clean_$PID.log 2>&1; CLEAN=$?
 rm -f tests/demo_seed.rs
 echo "$PID-$X: suite with change rc=$SUITE passed=$NT (want 0 / 49); demo with change rc=$MUT (want !=0); demo on clean tree rc=$CLEAN (want 0)"
 D=/verif/seeded/$PID-$X$SUFFIX
@@ -27,7 +27,7 @@ json.dump({'breaks':[pid],'origin':'written by an independent sub-agent that saw
  'confirmed':'builder re-ran in the scratch worktree: existing suite with the change passes (%s tests incl. doctests), demo.rs fails with the change and passes without'%nt},open(d+'/meta.json','w'),indent=1)
 PY
   cd /verif
-  for c in $CHECKS; do tools/seedtest.sh $PID-$X$SUFFIX $c | tail -2; done
+  tools/isotest.sh $PID-$X$SUFFIX /verif/seeded/$PID-$X$SUFFIX/patch.diff $CHECKS
 else
   echo "NOT CONFIRMED"
 fi
